@@ -256,6 +256,17 @@ def rule_blocks(repo: Repo, rep: Report) -> int:
     fi = repo.func(BLER, "BlockErrorRate._reshape_into_blocks")
     n = 0
     raises = [s for s in stmts_of(fi.body) if isinstance(s, ast.If) and any(isinstance(x, ast.Raise) for x in s.body) and "%" in unparse(s.test)]
+    if len(raises) == 1:
+        # a local alias of the block size (`block_size = self.block_size`) is resolved first
+        al = {s_.targets[0].id for s_ in stmts_of(fi.body) if isinstance(s_, ast.Assign) and isinstance(s_.targets[0], ast.Name) and unparse(s_.value) == "self.block_size"}
+        if al:
+            import copy as _copy
+
+            class _R(ast.NodeTransformer):
+                def visit_Name(self, nd):
+                    return ast.copy_location(ast.parse("self.block_size", mode="eval").body, nd) if nd.id in al and isinstance(nd.ctx, ast.Load) else nd
+
+            raises = [ast.fix_missing_locations(_R().visit(_copy.deepcopy(raises[0])))]
     ok = len(raises) == 1 and match(raises[0].test, "_E % self.block_size != 0") is not None
     whole_batch = False
     if ok:
